@@ -74,3 +74,48 @@ class Committors(Contract):
 def registry():
     cs = [ImQ(), Committors()]
     return {c.key: c for c in cs}
+
+
+class EqProbsOpaque(Contract):
+    key = 'enspara/msm/transition_matrices.py::eq_probs'
+
+    def result(self, e, st, args):
+        n = e.deref(st, args['T']).shape[0]
+        return e.fresh_arr(st, 'eq_probs', 'real', (n,))
+
+    def ensures(self, L, A, N, R, G, V):
+        return [('one-per-state', L.len(R) == L.shape(A['T'], 0))]
+
+
+class MfptsSinks(Contract):
+    """mfpts(tprob, sinks=S, lagtime): x solves M x = c with M the absorbing system for S and c = 0 on S, 1 elsewhere;
+    result = lagtime * x   (so it is linear in the lag time; first-step equations: lemmas/Mfpt.lean)"""
+    key = F + 'mfpts'
+    abstract_nonlinear = False
+
+    def params(self, e, st):
+        import z3
+        return {'tprob': sym_matrix(e, st), 'sinks': sym_states(e, st, 'sinks', 'nk'), 'lagtime': z3.Real('lagtime')}
+
+    def requires(self, L, A, G):
+        T = A['tprob']
+        n = L.shape(T, 0)
+        return [('square', L.shape(T, 1) == n), ('states-in-range', in_range(L, A['sinks'], n)), ('nonempty', n >= 1)]
+
+    def ensures(self, L, A, N, R, G, V):
+        T, si, lag = A['tprob'], A['sinks'], A['lagtime']
+        n = L.shape(T, 0)
+        M, c = V['I_m_Q'], V['c']
+        import z3
+        x = z3.Array('mfpt_solution', z3.IntSort(), z3.RealSort())
+        solves = z3.Function('SOLVES_1d', M.term.sort(), c.term.sort(), c.term.sort(), z3.BoolSort())
+        imq = ImQ()
+        return [('system-matrix', L.forall2((0, n), (0, n), lambda i, j: L.req(M[i, j], imq.system(L, T, si, i, j)))),
+                ('right-hand-side-zero-on-sinks-one-elsewhere', L.forall(0, n, lambda i: c[i] == L.ite(L.member(si, i), 0, 1))),
+                ('result-is-lag-time-times-an-exact-solution', z3.Exists([x], z3.And(solves(M.term, c.term, x), L.len(R) == n,
+                                                                                 L.forall(0, n, lambda i: R[i] == lag * x[i]))))]
+
+
+def registry_mfpts():
+    cs = [ImQ(), EqProbsOpaque(), MfptsSinks()]
+    return {c.key: c for c in cs}
